@@ -559,7 +559,10 @@ package leader
 //@   on lock kvElection.mu set st0 = e.state
 //@   on lock kvElection.mu set lead0 = e.isLeader
 //@   ensures C18.snapshot_consistent: result.IsLeader == (result.State == "LEADER")
+//@   ghost tok0 Int = 0
+//@   on lock kvElection.mu set tok0 = e.token
 //@   ensures C18.snapshot_is_locked_state: result.State == st0 && result.IsLeader == lead0
+//@   ensures C05+C18.snapshot_token: result.Token == tok0
 
 //@ func (e *kvElection) OnPromote(fn)
 //@   tags C20
@@ -1112,3 +1115,75 @@ package leader
 //@   ensures C14.model_delete_iff_live: plain && wrote ==> ((result == nil) == hadKey)
 //@   ensures C14.model_delete_effect: plain && wrote && result == nil ==> !postHas
 //@   ensures C14.model_plain_mode_reaches_store: plain && !m.failDelete ==> wrote
+
+// ===========================================================================
+// test_adapters.go and the remaining nats adapters: faithful pass-through (C14)
+// (the chain  leader.KeyValue -> MockKeyValueAdapter -> natsmock.MockKeyValue  is what
+//  every test and replay runs against; with the block above it realises the assumed contract)
+// ===========================================================================
+
+//@ func (a *MockKeyValueAdapter) Create(key, value, opts)
+//@   tags C14
+//@   ghost r0 Int = 0
+//@   ghost r1 Int = 0
+//@   on call *natsmock.MockKeyValue.Create as c assert C14.mock_create_passthrough: c.recv == a.KV && c.key == key && c.value == value
+//@   on ret *natsmock.MockKeyValue.Create as c set r0 = c.result0
+//@   on ret *natsmock.MockKeyValue.Create as c set r1 = c.result1
+//@   ensures C14.mock_create_passthrough: calls(*natsmock.MockKeyValue.Create) == 1
+//@   ensures C14.mock_create_result_unchanged: result0 == r0 && result1 == r1
+
+//@ func (a *MockKeyValueAdapter) Update(key, value, rev, opts)
+//@   tags C14
+//@   ghost r0 Int = 0
+//@   ghost r1 Int = 0
+//@   on call *natsmock.MockKeyValue.Update as c assert C14.mock_update_passthrough: c.recv == a.KV && c.key == key && c.value == value && c.rev == rev
+//@   on ret *natsmock.MockKeyValue.Update as c set r0 = c.result0
+//@   on ret *natsmock.MockKeyValue.Update as c set r1 = c.result1
+//@   ensures C14.mock_update_passthrough: calls(*natsmock.MockKeyValue.Update) == 1
+//@   ensures C14.mock_update_result_unchanged: result0 == r0 && result1 == r1
+
+//@ func (a *MockKeyValueAdapter) Get(key)
+//@   tags C14 C13
+//@   ghost r0 Int = 0
+//@   ghost r1 Int = 0
+//@   on call *natsmock.MockKeyValue.Get as c assert C14.mock_get_passthrough: c.recv == a.KV && c.key == key
+//@   on ret *natsmock.MockKeyValue.Get as c set r0 = c.result0
+//@   on ret *natsmock.MockKeyValue.Get as c set r1 = c.result1
+//@   ensures C14.mock_get_passthrough: calls(*natsmock.MockKeyValue.Get) == 1
+//@   ensures C14.mock_get_error_unchanged: result1 == r1
+//@   ensures C14.mock_get_wraps_entry: r1 == nil && r0 != nil ==> result0 != nil && istype(result0, *MockEntryAdapter) && result0.(*MockEntryAdapter).Entry == r0
+
+//@ func (a *MockKeyValueAdapter) Delete(key)
+//@   tags C14
+//@   ghost r0 Int = 0
+//@   on call *natsmock.MockKeyValue.Delete as c assert C14.mock_delete_passthrough: c.recv == a.KV && c.key == key
+//@   on ret *natsmock.MockKeyValue.Delete as c set r0 = c.result
+//@   ensures C14.mock_delete_passthrough: calls(*natsmock.MockKeyValue.Delete) == 1
+//@   ensures C14.mock_delete_result_unchanged: result == r0
+
+//@ func (a *MockEntryAdapter) Value()
+//@   tags C14
+//@   ghost r0 Int = 0
+//@   on call natsmock.Entry.Value as c assert C14.mock_entry_passthrough: c.recv == a.Entry
+//@   on ret natsmock.Entry.Value as c set r0 = c.result
+//@   ensures C14.mock_entry_value_unchanged: result == r0
+//@ func (a *MockEntryAdapter) Revision()
+//@   tags C14
+//@   ghost r0 Int = 0
+//@   on call natsmock.Entry.Revision as c assert C14.mock_entry_passthrough: c.recv == a.Entry
+//@   on ret natsmock.Entry.Revision as c set r0 = c.result
+//@   ensures C14.mock_entry_revision_unchanged: result == r0
+
+//@ func (a *natsJetStreamAdapter) KeyValue(bucket)
+//@   tags C14
+//@   ghost r0 Int = 0
+//@   ghost r1 Int = 0
+//@   on call nats.JetStreamContext.KeyValue as c assert C14.bucket_passthrough: c.recv == a.js && c.bucket == bucket
+//@   on ret nats.JetStreamContext.KeyValue as c set r0 = c.result0
+//@   on ret nats.JetStreamContext.KeyValue as c set r1 = c.result1
+//@   ensures C14.bucket_passthrough: calls(nats.JetStreamContext.KeyValue) == 1 && result1 == r1
+//@   ensures C14.bucket_wraps_store: r1 == nil ==> result0 != nil && istype(result0, *natsKeyValueAdapter) && result0.(*natsKeyValueAdapter).kv == r0
+
+//@ func NewCircuitBreaker(failureThreshold, cooldownPeriod)
+//@   tags C17
+//@   ensures C17.breaker_starts_closed: result != nil && result.state == 0 && result.failures == 0 && result.failureThreshold == failureThreshold && result.cooldownPeriod == cooldownPeriod
